@@ -3,6 +3,12 @@
 import json, subprocess
 
 CHECKS = {
+ "C12": dict(category="exploration", technique="bounded exhaustive enumeration of control-flow skeletons; structural invariants + dominance by definition on the real CFG",
+   text="Every control-flow skeleton (if/if-else/while/for/blocks; bare, empty and braced bodies up to 4/5 statements, braced bodies up to 7/8 statements, nesting <=3) is lifted by the real into_cfg and into_ssa as function and as template; entry/reachability/mirror/branch-position/target/successor-count invariants, i dom j => i<=j with dominance by definition, the recorded loop depth against the loop nesting the generator recorded for each statement, and edge preservation by SSA are checked on every one.",
+   note="Trusted: generator span recorder (mc/src/space/prog.rs), refsem/dom.rs. Skeletons beyond the statement bound are covered only by the small-scope argument.", ref="5/C12"),
+ "C13": dict(category="model_checking", technique="exhaustive decision-string DFS (stateless, replay-from-prefix) walking the generator's structured program and the real CFG in lock-step",
+   text="For every program of the skeleton space and every branch/loop decision string (loops unrolled <=2/3 times per entry) the statement sequence of the structured source (for = init/cond/body/step, compound assignments expanded, stop at first return) is compared with the sequence met on the real CFG under the same decisions, before and after SSA conversion. Exploration is on the implementation itself, so every trace is validated against it.",
+   note="Trusted: the structural walker (mc/src/refsem/walk.rs) and span recorder. Paths beyond the unrolling bound are not explored.", ref="5/C13"),
  "C15": dict(category="exploration", technique="bounded exhaustive enumeration of all rooted digraphs (n<=5 quick; n=6 up to 10 edges thorough) against dominance-by-definition",
    text="Every edge set on up to 5 nodes (thorough: 6 nodes, <=10 edges) whose nodes are all reachable from the entry is pushed through the real generic DominatorTree::new and compared, node by node, with dominators/idom/children/frontier computed from their definitions (node deletion + reachability). Exhaustive within the node bound, no isomorphism reduction; small-scope argument beyond it.",
    note="Trusted: the 60-line reference in mc/src/refsem/dom.rs. The 'randomly beyond the bound' clause is sampling and not done.", ref="5/C15"),
